@@ -290,6 +290,12 @@ func (fr *frame) builtinAppend(st *State, c *ssa.CallCommon, pos token.Pos, in s
 			Implies(inOld, Eq(Select(grown, k), Select(oldArr, vc.iAdd(vc.slOff(s), k)))),
 			Implies(inNew, Eq(Select(grown, k), srcAt(vc.iSub(k, oldLen))))), []*Term{Select(grown, k)}))
 	}
+	if lv, ok := litIdx(n); ok && lv <= 8 {
+		// the appended elements of the grown copy, as ground facts
+		for j := int64(0); j < lv; j++ {
+			vc.assume(st.guard, Eq(Select(grown, vc.iAdd(oldLen, vc.idx(j))), srcAt(vc.idx(j))))
+		}
+	}
 	st.heap[key] = vc.define("h", Ite(fits, Store(H, vc.slArr(s), inPlace), Store(H, ref, grown)))
 	res := vc.mkSlice(Ite(fits, vc.slArr(s), ref), Ite(fits, vc.slOff(s), vc.idx(0)), newLen, Ite(fits, vc.slCap(s), newCap))
 	return &Val{T: vc.define(fr.regName(in), res), Go: in.Type()}
@@ -525,7 +531,7 @@ func (vc *VC) havocPlace(st *State, env *SEnv, e *SExpr) (err error) {
 		na := vc.fresh("mod!arr", hs.Elem)
 		k := Atom("k!m", vc.idxSort())
 		lo := vc.slOff(s.T)
-		hi := vc.iAdd(lo, vc.slLen(s.T))
+		hi := vc.iAdd(lo, vc.modExtent(s.T, e))
 		out := Or(vc.iCmp("<", k, lo, true), vc.iCmp(">=", k, hi, true))
 		vc.assume(st.guard, Forall([]*Term{k}, Implies(out, Eq(Select(na, k), Select(oldArr, k))), []*Term{Select(na, k)}))
 		st.heap[key] = vc.define("h", Store(H, vc.slArr(s.T), na))
